@@ -5,6 +5,7 @@ from tsg.build import AnalysisBroken
 
 W = "Tasgrid/tasgridWrapper.cpp"
 WR = "TasgridWrapper"
+TSG = "TasGrid::TasmanianSparseGrid"
 
 
 def disjuncts(e):
@@ -221,6 +222,72 @@ def run(chk):
            "finishConstruction called in %s" % sorted({short(f.name) for f, c in closes}) if closes else
            "no command handler calls finishConstruction: after -getconstructpnts the grid rejects refinement commands until it is re-made",
            "at least one handler ends the construction")
+
+    # ------------------------------------------------------------------ D8 shape of the scale-correction matrix
+    chk.rule("C16-D8.scale", "where the tool reads a scale-correction matrix for a surplus refinement / construction call, the column count it accepts is the library's: one column per "
+                             "output when all outputs are used (output == -1), one column when a single output is selected; the sibling sites agree")
+    # the library side: nscale = getNumLoaded(); if (output == -1) nscale *= getNumOutputs()
+    lib = [f for f in db.fns(TSG + "::setSurplusRefinement") if "std::vector<double>" in f.sig and "TypeRefinement" in f.sig]
+    lib_all = False
+    for f in lib:
+        for q in f.walk():
+            if q.get("k") == "IfStmt" and txt(strip(q.get("cond"))).replace(" ", "") == "output==-1" and "getNumOutputs" in txt(q.get("then")) and "*=" in txt(q.get("then")):
+                lib_all = True
+    if not lib_all:
+        raise AnalysisBroken("the library's extent rule for scale_correction (output == -1 multiplies by the outputs) was not found: re-derive C16-D8")
+    nsc = 0
+    for f in db.all_functions(["Tasgrid/tasgridWrapper.cpp"]):
+        if f.cls != WR:
+            continue
+        asserts = []
+        for c in f.calls():
+            if short(callee(c) or "") == "iassert" and "getStride()" in txt(call_args(c)[0]):
+                cond = strip(call_args(c)[0])
+                if cond.get("k") == "BinaryOperator" and cond.get("op") == "==":
+                    rhs = txt(strip(cond["c"][1])).replace("(size_t)", "").replace(" ", "")
+                    edges = [(txt(strip(e)).replace(" ", ""), tr) for e, tr in cond_edges_dominating(f, c)]
+                    mode = None
+                    for t, tr in edges:
+                        if t == "ref_output==-1":
+                            mode = "all" if tr else "single"
+                        elif t in ("ref_output>-1", "ref_output>=0", "ref_output!=-1"):
+                            mode = "single" if tr else "all"
+                    if mode:
+                        asserts.append((c, mode, rhs))
+        if not asserts:
+            continue
+        nsc += 1
+        chk.saw(f)
+        got = {m: r for c, m, r in asserts}
+        want = {"all": "grid.getNumOutputs()", "single": "1"}
+        chk.ob("C16-D8.scale", f.key, "accepted column count of the weights matrix", got == want, f.loc(asserts[0][0]), "accepts %s" % got, "%s" % want)
+    chk.floor("C16-D8.scale", nsc, 2, "wrapper functions that validate a scale-correction matrix")
+
+    # ------------------------------------------------------------------ D9 verified reads are honoured
+    chk.rule("C16-D9.verified", "a matrix obtained from verifiedRead() reaches the library only on the pass_flag edge of a test made after the read: a file with the wrong number of "
+                                "columns stops the command instead of being re-interpreted")
+    nver = 0
+    for f in db.all_functions(["Tasgrid/tasgridWrapper.cpp"]):
+        if f.cls != WR:
+            continue
+        loc = {v["did"]: v for v in f.locals().values() if "did" in v}
+        for did, v in loc.items():
+            ini = [c for c in v.get("c", []) if isinstance(c, dict)]
+            rd = next((q for q in walk(ini[0]) if short(callee(q) or "") == "verifiedRead"), None) if ini else None
+            if rd is None:
+                continue
+            uses = [c for c in f.calls(into_lambda=False) if (callee(c) or "").startswith(TSG + "::") and any(x.get("k") == "DeclRefExpr" and x.get("did") == did for a in call_args(c) for x in walk(a))]
+            for u in uses:
+                nver += 1
+                chk.saw(f)
+                ok = False
+                for e, tr in cond_edges_dominating(f, u):
+                    t = txt(strip(e)).replace(" ", "")
+                    if ((t == "pass_flag" and tr) or (t in ("!pass_flag", "notpass_flag") and not tr)) and e.get("l", 0) >= rd.get("l", 0):
+                        ok = True
+                chk.ob("C16-D9.verified", f.key, "%s(%s) @%d uses the matrix read @%d" % (short(callee(u)), v.get("name"), u.get("l", 0), rd.get("l", 0)), ok, f.loc(u),
+                       "" if ok else "no pass_flag test between the read and the use: a rejected matrix is still handed to the library", "if (not pass_flag) return; after the read")
+    chk.floor("C16-D9.verified", nver, 6, "library calls fed from verifiedRead()")
 
     # ------------------------------------------------------------------ D7 precision of numeric options
     chk.rule("C16-D7.precision", "a numeric option that the wrapper stores as double is parsed in double precision: no argument of a double-typed wrapper setter is a float-typed "
